@@ -38,10 +38,10 @@ GEN_RULE = (
 def plan(prop, tier):
     if prop == "C01":
         return explorer_plan(
-            "c01", tier, 2500, 40000, GEN_RULE + "; C01 oracle: allocator monitor x kernel-held region registry, quarantine poison check, stack-memory check; plus c06mt: futures dropped on worker threads while the ring thread consumes their completions",
+            "c01", tier, 2500, 40000, GEN_RULE + "; C01 oracle: allocator monitor x kernel-held region registry, quarantine poison check, stack-memory check; plus realmix: the same kind of poll/drop/teardown histories on the REAL io_uring of this machine (pipes and socket pairs, the harness writing to the other end decides when reads complete), every freed block quarantined with a poison pattern that a late kernel write would change; plus c06mt: futures dropped on worker threads while the ring thread consumes their completions",
             ["drop:Single:in-flight", "drop:Multi:in-flight", ["drop:TwoStep:in-flight", "drop:TwoStep:between-two-completions"], "cqe:for-dropped-op", "simk_kernel_mem_writes", "simk_kernel_mem_reads", "mt-drop:workers=2"],
-            extra_quick=[gen_job("c06mt", "native-debug", 500, 8, timeout=400)],
-            extra_thorough=[gen_job("c01", "asan", 3000, 16, timeout=1200), gen_job("c01", "miri", 12, 16, timeout=1500),
+            extra_quick=[gen_job("c06mt", "native-debug", 500, 8, timeout=400), gen_job("realmix", "native-debug", 1000, 8, timeout=600)],
+            extra_thorough=[gen_job("c01", "asan", 3000, 16, timeout=1200), gen_job("c01", "miri", 12, 16, timeout=1500), gen_job("realmix", "native-debug", 30000, 16, timeout=3000), gen_job("realmix", "native-release", 30000, 16, timeout=3000), gen_job("realmix", "asan", 5000, 16, timeout=3000),
                             gen_job("c06mt", "native-debug", 8000, 16, timeout=1800), gen_job("c06mt", "asan", 500, 16, timeout=1800), gen_job("c06free", "tsan", 60, 8, timeout=3000), gen_job("c06free", "miri", 6, 16, timeout=3000)],
         )
     if prop == "C02":
@@ -64,10 +64,10 @@ def plan(prop, tier):
         )
     if prop == "C06":
         return explorer_plan(
-            "c06", tier, 2500, 40000, GEN_RULE + "; C06 oracle: cancel requests vs drops (target, count, room), allocator exactly-once and leak ledger after teardown; plus c06mt: baton-scheduled worker threads dropping in-flight futures while the ring thread consumes their completions (leak/double-free ledger over the whole schedule)",
+            "c06", tier, 2500, 40000, GEN_RULE + "; C06 oracle: cancel requests vs drops (target, count, room), allocator exactly-once and leak ledger after teardown; plus realmix: histories on the real kernel with the leak ledger after all objects were dropped in a random order; plus c06mt: baton-scheduled worker threads dropping in-flight futures while the ring thread consumes their completions (leak/double-free ledger over the whole schedule)",
             ["drop:Single:in-flight", "drop:Single:never-polled", "drop:Single:finished", "drop:Multi:multishot-mid-stream", ["drop:TwoStep:between-two-completions", "drop:TwoStep:in-flight"], "drop:Single:queued-not-consumed", "simk_cancels", "mt-drop:workers=2", "mt-drop:workers=3"],
-            extra_quick=[gen_job("c06mt", "native-debug", 500, 8, timeout=400), gen_job("c06free", "miri", 2, 4, timeout=900)],
-            extra_thorough=[gen_job("c06", "asan", 3000, 16, timeout=1200, lsan=True),
+            extra_quick=[gen_job("c06mt", "native-debug", 500, 8, timeout=400), gen_job("c06free", "miri", 2, 4, timeout=900), gen_job("realmix", "native-debug", 1000, 8, timeout=600)],
+            extra_thorough=[gen_job("c06", "asan", 3000, 16, timeout=1200, lsan=True), gen_job("realmix", "native-debug", 30000, 16, timeout=3000), gen_job("realmix", "native-release", 30000, 16, timeout=3000),
                             gen_job("c06mt", "native-debug", 8000, 16, timeout=1800), gen_job("c06mt", "asan", 500, 16, timeout=1800), gen_job("c06free", "tsan", 60, 8, timeout=3000), gen_job("c06free", "miri", 6, 16, timeout=3000)],
         )
     if prop == "C09":
@@ -121,15 +121,17 @@ def plan(prop, tier):
         )
     if prop == "C12":
         import math
-        total = 31680
-        rule = ("enumeration of every drop order of 4 object sets (6-7 objects each: Ring, queue clones, regular/direct AsyncFd, never-polled/queued/in-flight/finished/multishot operations, ReadBufPool, ReadBuf) x {final sync-cancel cancels everything, one request completes normally first}; "
-                "orders that safe Rust cannot express (descriptor before an operation borrowing it) are skipped; ledgers: mapping, descriptor, allocation (tracking allocator), kernel tables (in-flight requests, buffer-ring registrations); distinct = distinct (set, order, mode)")
+        total = 47520
+        rule = ("enumeration of every drop order of 4 object sets (6-7 objects each: Ring, queue clones, regular/direct AsyncFd, never-polled/queued/in-flight/finished/multishot operations, ReadBufPool, ReadBuf) x {final sync-cancel cancels everything, one request completes normally first, completion queue already overflowing with wake-up completions when the drops start}; "
+                "orders that safe Rust cannot express (descriptor before an operation borrowing it) are skipped; ledgers: mapping, descriptor, allocation (tracking allocator), kernel tables (in-flight requests, buffer-ring registrations); distinct = distinct (set, order, mode); plus sampled histories on the real kernel (scenario realmix) torn down in random order")
         shards = 8 if tier == "quick" else 16
         jobs = [gen_job("c12", "native-debug", math.ceil(total / shards), shards, timeout=900)]
         if tier != "quick":
             jobs += [gen_job("c12", "native-release", math.ceil(total / 16), 16, timeout=900), gen_job("c12", "asan", math.ceil(total / 16), 16, timeout=1800, lsan=False), gen_job("c12", "miri", 12, 16, timeout=2400)]
-        return dict(jobs=jobs, level="fault_enumeration", rule=rule, floor_cells=["set:0", "set:1", "set:2", "set:3", "ring-position:0", "ring-position:6", "sync-cancel-mode:1", "first:ReadBuf", "first:Pool"],
-                    floor_evaluations=20000, exhaustive=True, assumptions=SIMK_ASSUMPTIONS + ["real-kernel corroboration (E6) is not part of this check yet"], also=[])
+        # Corroboration on the real kernel (sampled, does not count towards the enumeration).
+        jobs += [gen_job("realmix", "native-debug", 1000 if tier == "quick" else 30000, 8 if tier == "quick" else 16, timeout=3000, aux=True)]
+        return dict(jobs=jobs, level="fault_enumeration", rule=rule, floor_cells=["set:0", "set:1", "set:2", "set:3", "ring-position:0", "ring-position:6", "sync-cancel-mode:1", "sync-cancel-mode:2", "first:ReadBuf", "first:Pool", "real_ops_dropped_in_flight"],
+                    floor_evaluations=20000, exhaustive=True, assumptions=SIMK_ASSUMPTIONS + ["the realmix job (random histories and teardown orders on the real io_uring of this machine with the leak ledger, the quarantine poison check and the descriptor count) is sampled corroboration, not part of the enumeration"], also=[])
     if prop == "C18":
         import math
         total = 69300
